@@ -87,8 +87,8 @@ class LitSplit:
 
     def ghost(self):
         return [("if let Some(col) = row.remove_column(&bvar.name) {", "line-after", self.col),
-                ("default_rows.push(row);", "line-after", self.all("assert(k2 == kk);"), 0),
-                ("default_rows.push(row);", "line-after", self.all(f"assert(col_of(r0, {V}, k2));"), 1)]
+                ("?default_rows.push(row);", "line-after", self.all("assert(k2 == kk);"), 0),
+                ("?default_rows.push(row);", "line-after", self.all(f"assert(col_of(r0, {V}, k2));"), 1)]
 
     def placeholders(self):
         return [("SPLIT_BODY", self.body), ("SPLIT_ROW", self.row), ("SPLIT_KEY", self.key), ("SPLIT_NEW_KEY", self.new), ("SPLIT_PRE", self.pre), ("SPLIT_POST", self.post)]
@@ -368,11 +368,16 @@ UNIT = Unit(
                (re.compile(r'let key = value\s*\.as_str\(\)\s*\.expect\("[^"]*"\)\s*\.to_string\(\);'),
                 "let key = match value.as_str() { Some(__s) => str_to_string(__s), None => { proof { assume(false); } unreached() } }; SPLIT_KEY", 1),
                (re.compile(r"let entry = value_rows\s*\.entry\(key\)\s*\.or_insert_with\(\|\| ((?:[^()]|\([^()]*\))*)\);"),
-                r"if !value_rows.contains_key(&key) { let __init = \1; SPLIT_NEW_KEY value_rows.insert_new(key.clone(), __init); } SPLIT_PRE", 1),
-               (re.compile(r"\bentry\.push\(row\);"), "value_rows.push_to(&key, row); SPLIT_POST", 1),
+                r"if !value_rows.contains_key(&key) { let __init = \1; SPLIT_NEW_KEY value_rows.insert_new(key.clone(), __init); } SPLIT_PRE", "*"),
+               (re.compile(r"\bentry\.push\(row\);"), "value_rows.push_to(&key, row); SPLIT_POST", "*"),
+               # `value_rows.entry(key).or_default().push(row)`: a literal first seen now starts from an EMPTY sub-matrix
+               (re.compile(r"value_rows\s*\.entry\(key\)\s*\.or_default\(\)\s*\.push\(row\);"),
+                "if !value_rows.contains_key(&key) { let __init: Vec<Row> = Vec::new(); SPLIT_NEW_KEY value_rows.insert_new(key.clone(), __init); } SPLIT_PRE value_rows.push_to(&key, row); SPLIT_POST", "*"),
+               # a variant that keeps no list of the unconstrained rows seen so far: the contract is stated against an empty one
+               (re.compile(r"(?s)\A.*\Z"), lambda mt: mt.group(0) if "fallback_rows" in mt.group(0) else mt.group(0).replace("let mut default_rows: Vec<Row> = Vec::new();", "let mut fallback_rows: Vec<Row> = Vec::new(); let mut default_rows: Vec<Row> = Vec::new();", 1), 1),
            ],
            rewrites=[(re.compile(r"\) -> core::Expr \{"), ") -> (ValMap, Vec<Row>) {", 1),
-                     ('_ => unreachable!("expected string pattern"),', "_ => { proof { assume(false); } }"),
+                     (re.compile(r'_ => unreachable!\("expected string pattern"\),'), "_ => { proof { assume(false); } }", "*"),
                      (re.compile(r"\.clone\(\)"), ".vclone()", "*")] + SPLIT_S.placeholders(),
            obligation=SPLIT_OBL, contract=SPLIT_S.contract(), ghost=SPLIT_S.ghost(),
            loop_fn=lambda k, header, kw: SPLIT_S.loop(header)),
